@@ -331,3 +331,6 @@ def run (ctx):
     ctx.undecided('R-AGREE', pout.qual, "packet_out.data setter", "setter not found", pout, 'D4')
   for nm, node in defs.undefined_names(repo, h):
     ctx.bad('R-DEF', h, "undefined name `%s`" % nm, "NameError in the packet-in handler", (mod, node), 'D1')
+  # ---- mechanisms this property shares with others: their checks' rules about these functions are obligations here too
+  ctx.include('C09', ['Connection.read'], "packet-ins reach the learning switch through the connection's read loop and handler table")
+  ctx.include('C18', ['_process_actions_for_packet_from_buffer', '_buffer_packet'], "buffered packets are released through the switch's use-and-free routine")
